@@ -576,7 +576,12 @@ def tie_C09(ctx):
             cases.append([f"new 0 {g} u64 {x:016x}", f"new 2 {g} seed {exp.hex()}", "eq 0 2", "u32 0", "u32 2", "fill 0 70"])
         for g in ("IsaacRng", "Isaac64Rng"):
             cases.append([f"new 0 {g} u64 {x:016x}", f"{native(g)} 0", "fill 0 1030"])
-    h, _ = ctx.absolute("seed_from_u64(x) vs model and vs from_seed(documented expansion)", cases)
+    # for the types that have from_seed as an independent reference the oracle is real-vs-real (eq); the model is the
+    # reference only where no other exists (ISAAC's one-pass seed_from_u64)
+    h, _ = ctx.absolute("seed_from_u64(x) vs model and vs from_seed(documented expansion)", cases,
+                        mask=lambda c_: c_.startswith("ser ") or c_.startswith("u32 ") or c_.startswith("u64 ") or c_.startswith("fill "))
+    isa = [c for c in cases if "Isaac" in c[0]]
+    ctx.absolute("IsaacRng/Isaac64Rng seed_from_u64(x): key layout and single pass vs model", isa)
     for c, o in zip(cases, h):
         for cmd, v in zip(c, o):
             if cmd.startswith("eq ") and v != "true":
@@ -691,7 +696,8 @@ def tie_C10(ctx):
         k = rng.randrange(1, 15)
         c = [f"new 0 Hc128Rng seed {seed.hex()}"] + ["u32 0"] * k + ["clone 1 0", "u32 1", "eq 0 1", "u32 0", "eq 0 1"]
         cases.append(c); meta.append(("Hc128Rng", 9, len(c) - 3))
-    h, _ = ctx.absolute_from_state("clone / == pairs with identical continuations vs model", cases)
+    # C10 is about clone / == and equality of the two futures; the values themselves belong to C01-C05
+    h, _ = ctx.absolute_from_state("clone / == pairs with identical continuations vs model", cases, mask=only_state)
     for (g, kind, eq_at), c, o in zip(meta, cases, h):
         if kind == 9:
             if o[eq_at] != "false":
@@ -741,7 +747,8 @@ def tie_C11(ctx):
             c += ["ser 0", "ser 1"]
             cases.append(c); meta.append((g, at))
             ctx.dist[f"{g}:snapshot"] += 1
-    h, _ = ctx.absolute_from_state("bincode image at a random point of a random history, restored twin, continuations vs model", cases)
+    h, _ = ctx.absolute_from_state("bincode image at a random point of a random history, restored twin, continuations vs model", cases,
+                                   mask=only_state)
     for (g, at), c, o in zip(meta, cases, h):
         if o[at + 1] != "ok":
             ctx.fail("serde", f"{g}: deserializing its own image failed", c, expected="ok", actual=o[at + 1]); continue
@@ -944,7 +951,8 @@ def tie_C13(ctx):
     for cls, rs in scripts:
         cases.append([f"timer 0 {rd_hex(rs)}", "jit 1 0", "testtimer 1", "calls 0", "pool 1"])
         ctx.dist["script:" + cls.split("=")[0].split("~")[0]] += 1
-    h, _ = ctx.absolute("test_timer on scripted timers (every table row, thresholds, each error class) vs model", cases)
+    h, _ = ctx.absolute("test_timer on scripted timers (every table row, thresholds, each error class) vs model", cases,
+                        mask=lambda c_: c_.startswith("pool "))
     follow = []
     for (cls, rs), c, o in zip(scripts, cases, h):
         res = o[2]
@@ -1181,7 +1189,8 @@ def tie_C16(ctx):
         cases.append(head + body)
         meta.append((shape, r))
         ctx.dist[f"shape{shape}"] += 1
-    h, _ = ctx.absolute("JitterRng halves, fresh collections, clones: twins on identical timer scripts with call counts vs model", cases)
+    h, _ = ctx.absolute("JitterRng halves, fresh collections, clones: twins on identical timer scripts with call counts vs model", cases,
+                        mask=only_state)
     for (shape, r), c, o in zip(meta, cases, h):
         b = o[6:]
         fresh = 1 + 3 * (1 + r)
